@@ -635,19 +635,22 @@ def slicePos (len : Nat) (n : Int) : Int :=
     if m < 0 then (len : Int) else m
   else if n > (len : Int) then (len : Int) else n
 
+/-- `if pe.Slice.Offset != nil { rs = rs[slicePos(sliceOffset):] }`. -/
+def sliceOff {α : Type} (l : List α) : Option Int → Res (List α)
+  | none => .ok l
+  | some o => sliceFromI l (slicePos l.length o)
+
+/-- `if pe.Slice.Length != nil { rs = rs[:slicePos(sliceLen)] }` (on the already shortened list). -/
+def sliceLen {α : Type} (l : List α) : Option Int → Res (List α)
+  | none => .ok l
+  | some n => sliceToI l (slicePos l.length n)
+
 /-- String slicing in `paramExp` (`callVarInd` branch): runes of the value, optional offset and
     length as already evaluated integers. -/
 def sliceStr (rs : List Nat) (off len : Option Int) : Res (List Nat) :=
-  let r1 : Res (List Nat) :=
-    match off with
-    | none => .ok rs
-    | some o => sliceFromI rs (slicePos rs.length o)
-  match r1 with
+  match sliceOff rs off with
   | .panic => .panic
-  | .ok rs1 =>
-    match len with
-    | none => .ok rs1
-    | some l => sliceToI rs1 (slicePos rs1.length l)
+  | .ok rs1 => sliceLen rs1 len
 
 /-- Go's `slices.BinarySearch` loop on an ascending list: smallest position whose element is
     not less than the target. -/
@@ -661,28 +664,29 @@ def bsearch (x : List Int) (target : Int) : Nat → Nat → Nat → Res Nat
       | .ok xh => if xh < target then bsearch x target fuel (h + 1) j else bsearch x target fuel i h
     else .ok i
 
+/-- The sparse-array offset adjustment of `sliceElems` (`last` = the maximum index). -/
+def sparseOffset (o last : Int) : Int :=
+  if o < 0 then (if o + (last + 1) < 0 then last + 1 else o + (last + 1)) else o
+
+/-- The offset half of `sliceElems`. -/
+def sliceElemsOff {α : Type} (elems : List α) (indexes : List Int) : Option Int → Res (List α)
+  | none => .ok elems
+  | some o =>
+    if indexes.length > 0 then
+      match getI indexes ((indexes.length : Int) - 1) with
+      | .panic => .panic
+      | .ok last =>
+        match bsearch indexes (sparseOffset o last) (indexes.length + 1) 0 indexes.length with
+        | .panic => .panic
+        | .ok pos => sliceFromN elems pos
+    else sliceFromI elems (slicePos elems.length o)
+
 /-- `sliceElems` after the optional `$0` has been prepended (`positional`): `indexes` is empty for
     dense arrays and positional parameters, else it has one ascending entry per element. -/
 def sliceElems {α : Type} (elems : List α) (indexes : List Int) (off len : Option Int) : Res (List α) :=
-  let r1 : Res (List α) :=
-    match off with
-    | none => .ok elems
-    | some o =>
-      if indexes.length > 0 then
-        match getI indexes ((indexes.length : Int) - 1) with
-        | .panic => .panic
-        | .ok last =>
-          let o1 := if o < 0 then (if o + (last + 1) < 0 then last + 1 else o + (last + 1)) else o
-          match bsearch indexes o1 (indexes.length + 1) 0 indexes.length with
-          | .panic => .panic
-          | .ok pos => sliceFromN elems pos
-      else sliceFromI elems (slicePos elems.length o)
-  match r1 with
+  match sliceElemsOff elems indexes off with
   | .panic => .panic
-  | .ok e1 =>
-    match len with
-    | none => .ok e1
-    | some l => sliceToI e1 (slicePos e1.length l)
+  | .ok e1 => sliceLen e1 len
 
 /-! ### arithmetic l-values and associative subscripts -/
 
@@ -712,6 +716,15 @@ def validName : Bytes → Bool
 def isArithName : AExpr → Bool
   | .word [.lit v] => validName v
   | .word [.nakedIndex _] => true
+  | _ => false
+
+/-- What the parser accepts as operand of a *prefix* `++`/`--`: it only checks that a literal
+    token follows; the operand is then whatever `arithmExprValue` returns — a literal word, `a[i]`,
+    or either of them with a postfix `++`/`--` (a `UnaryArithm`). -/
+def isPrefixOperand : AExpr → Bool
+  | .word [.lit v] => !v.isEmpty
+  | .word [.nakedIndex _] => true
+  | .unary => true
   | _ => false
 
 def litOf : Part → Option Bytes
